@@ -3,3 +3,5 @@ import DefconModel.Util.AL
 import DefconModel.Notify
 import DefconModel.AllDrivers
 import DefconModel.Props.C04
+import DefconModel.Ident
+import DefconModel.Drivers.Ident
